@@ -455,7 +455,18 @@ def judge_selection(ctx, flow, caller, node, cand, label):
         return not any(cn in C.reach_under(g, st, world, stop=[head]) for st in starts)
 
     # ---- (a) size check
-    def size_atom(x):
+    def size_atom(x, depth=0):
+        if isinstance(x, ast.Call) and isinstance(x.func, ast.Name) and len(x.args) == 1 and not x.keywords and depth < 2:
+            # fits = lambda size: size == recorded;  if fits(candidate_size): ...
+            bl_ = ctx.res.bindings(caller).get(x.func.id, [])
+            if len(bl_) == 1 and bl_[0][0] == "value" and isinstance(bl_[0][1], ast.Lambda) and len(bl_[0][1].args.args) == 1 and isinstance(x.args[0], ast.Name):
+                import copy as _copy
+                lam = bl_[0][1]
+                body = _copy.deepcopy(lam.body)
+                for n_ in ast.walk(body):
+                    if isinstance(n_, ast.Name) and n_.id == lam.args.args[0].arg:
+                        n_.id = x.args[0].id
+                return size_atom(body, depth + 1)
         if isinstance(x, ast.Compare) and len(x.ops) == 1 and isinstance(x.ops[0], (ast.Eq, ast.NotEq)):
             sides = [x.left, x.comparators[0]]
             for a, o in (sides, sides[::-1]):
